@@ -194,7 +194,16 @@ fn run_case(case: &C05Case, force_single: bool, obs: &mut Obs) -> Vec<(Vec<Value
 					let real: Vec<usize> = (0..subs.len()).filter(|i| subs[*i].sub_id.is_some()).collect();
 					let k = pick_idx(*pick, real.len() + 1);
 					let (sid, target) = if k < real.len() { (subs[real[k]].sub_id.clone().unwrap(), Some(real[k])) } else { (json!("unknown-sub"), None) };
-					pending_msgs.push(json!({"jsonrpc":"2.0","method":"notif_x","params":{"subscription": sid, "error": "closed by server"}}));
+					// (the error member is any JSON value: plain text, text that needs escaping, an error object, a number, null)
+					let err = match pick % 6 {
+						0 => json!("closed by server"),
+						1 => json!("closed: \"quota\" exceeded\n\\ caf\u{e9} \u{1}"),
+						2 => json!({"code": -32000, "message": "closed", "data": [1, 2]}),
+						3 => json!(17),
+						4 => Value::Null,
+						_ => json!(["closed", {"by": "server"}]),
+					};
+					pending_msgs.push(json!({"jsonrpc":"2.0","method":"notif_x","params":{"subscription": sid, "error": err}}));
 					if let Some(t) = target {
 						if subs[t].state == St::Live {
 							subs[t].state = St::ServerClosed;
